@@ -66,6 +66,10 @@ CHECKS = {
    "TLA+ shape grammar per entry point (InputShapes: 37 families) enumerated by TLC and rendered to bytes/values by Go; every shape fed to the real entry point in a child process under recover and a watchdog; outcomes judged by TLC against the ShapesContract monitor (ok or error, except named misuse)",
    "86k shapes / 131k real calls (quick) to 900k shapes / 1.16M calls (thorough) over ~40 entry points; hangs confirmed by a second 25 s run; fatal crashes attributed through an mmap'd in-flight record",
    "a structured shape space, not arbitrary byte strings (coverage-guided fuzzing is a different technique and not used); documented misuse panics excluded by name in the spec", "DESIGN.md#c07"),
+ "C20": ("model_checking",
+   "implementation-shaped TLA+ model of context.Pool (watcher pcs, read/write lock hand-over, closed, members vs maybe-members) checked exhaustively by TLC for NeverEarly and eventual cancellation; real Pool driven by a gated scheduler over the watcher's decision points and the entries of Add/Cancel, observed at every quiescent point, traces judged by TLC against the PoolContract monitor",
+   "all interleavings of 2-3 initial contexts (any subset pre-cancelled) x 2-3 Adds x member ends x Cancel on the model (98k states thorough config); ~1.5k (quick) to ~50k (thorough) controlled schedules of staged and random programs on the real code incl. Add racing the end of the last member and Cancel, never-ending contexts, empty pools",
+   "trusted: TLC; quiescence detection by goroutine wait states; an Add that overlaps the end of the last live member or Cancel is 'maybe a member' (the statement's own definition leaves it open)", "DESIGN.md#c20"),
 }
 
 def hook_commits():
